@@ -841,6 +841,9 @@ func suiteLoop(c *Ctx) {
 		topoN = 1500
 	}
 	for i := 0; i < topoN; i++ {
+		if !c.Begin("topo", i) {
+			continue
+		}
 		var in, out sx.V
 		var tags []string
 		in, out, tags = guarded(func() (sx.V, sx.V, []string) { return runTopoHistory(c.Seed, i) })
@@ -854,6 +857,9 @@ func suiteLoop(c *Ctx) {
 		deep = 6
 	}
 	for i := 0; i < deep; i++ {
+		if !c.Begin("deep", i) {
+			continue
+		}
 		var in, out sx.V
 		var tags []string
 		in, out, tags = guarded(func() (sx.V, sx.V, []string) { return runDeepHistory(c.Seed, i) })
@@ -867,6 +873,9 @@ func suiteLoop(c *Ctx) {
 		n = 8000
 	}
 	for i := 0; i < n; i++ {
+		if !c.Begin("loop", i) {
+			continue
+		}
 		var in, out sx.V
 		var tags []string
 		in, out, tags = guarded(func() (sx.V, sx.V, []string) { return runHistory(c.Seed, i, c.Quick()) })
